@@ -17,19 +17,26 @@ Definition Qvec := list Q.
 Definition Qmat := list (list Q).
 
 (* ---------------- small exact linear algebra on lists of Q ---------------- *)
-(* dot product; zero entries of the first vector are skipped (banded / sparse rows); reduced to lowest terms once, at
-   the end (reducing at every step costs a gcd per term and is several times slower on 77 x 77 binary floats) *)
-Fixpoint qdot_acc (acc : Q) (x y : Qvec) : Q :=
+(* exact dot product.  Each vector is first brought to a common denominator (the lcm of its denominators: for binary
+   floats the largest power of two), so that the sum of products is plain integer arithmetic; zero entries of the first
+   vector are skipped (banded / sparse rows).  This keeps 77 x 77 products of binary floats cheap under vm_compute. *)
+Definition common_den (v : Qvec) : positive :=
+  fold_right (fun q acc => Z.to_pos (Z.lcm (Zpos (Qden q)) (Zpos acc))) 1%positive v.
+Definition scaled (v : Qvec) : list Z * positive :=
+  let D := common_den v in (map (fun q => (Qnum q * (Zpos D / Zpos (Qden q)))%Z) v, D).
+Fixpoint zdot_acc (acc : Z) (x y : list Z) : Z :=
   match x, y with
-  | a :: x', b :: y' => if (Qnum a =? 0)%Z then qdot_acc acc x' y' else qdot_acc (acc + a * b) x' y'
+  | a :: x', b :: y' => if (a =? 0)%Z then zdot_acc acc x' y' else zdot_acc (acc + a * b)%Z x' y'
   | _, _ => acc
   end.
-Definition qdot (x y : Qvec) : Q := Qred (qdot_acc 0 x y).
+Definition sdot (x y : list Z * positive) : Q := Qred (zdot_acc 0%Z (fst x) (fst y) # (snd x * snd y)).
+Definition qdot (x y : Qvec) : Q := sdot (scaled x) (scaled y).
 Definition qmv (A : Qmat) (x : Qvec) : Qvec := map (fun r => qdot r x) A.
 Definition qcol (A : Qmat) (j : nat) : Qvec := map (fun r => nth j r 0) A.
 Definition ncols (A : Qmat) : nat := match A with [] => O | r :: _ => length r end.
 Definition qtr (A : Qmat) : Qmat := map (qcol A) (seq 0 (ncols A)).
-Definition qmm (A B : Qmat) : Qmat := let Bt := qtr B in map (fun r => map (fun c => qdot r c) Bt) A.
+Definition qmm (A B : Qmat) : Qmat :=
+  let Bs := map scaled (qtr B) in map (fun r => let rs := scaled r in map (fun c => sdot rs c) Bs) A.
 Definition qvadd (x y : Qvec) : Qvec := vadd Qplus x y.
 Definition qvscale (c : Q) (x : Qvec) : Qvec := map (fun a => Qred (c * a)) x.
 Definition qmscale (c : Q) (A : Qmat) : Qmat := map (qvscale c) A.
